@@ -238,6 +238,69 @@ func runC10(c *core.Ctx) error {
 			}
 		}
 	}
+	// maps.Keys / maps.Values hand back the map's elements in iteration order: the slice is as good as a range
+	// over the map and must be sorted (by a call in the same function) before anything else looks at it
+	for _, fn := range fns {
+		if !inScope(fn) {
+			continue
+		}
+		for _, call := range core.Calls(fn) {
+			name := core.CalleeName(call.Common())
+			if !(strings.HasPrefix(name, "golang.org/x/exp/maps.Keys") || strings.HasPrefix(name, "golang.org/x/exp/maps.Values") ||
+				strings.HasPrefix(name, "maps.Keys") || strings.HasPrefix(name, "maps.Values") || strings.HasPrefix(name, "maps.All")) {
+				continue
+			}
+			cv, ok := call.(*ssa.Call)
+			if !ok {
+				continue
+			}
+			key := fmt.Sprintf("%s:%s", fnKeyFull(fn), name[strings.LastIndex(name, "/")+1:])
+			sorted := false
+			var visit func(v ssa.Value, d int)
+			seenV := map[ssa.Value]bool{}
+			visit = func(v ssa.Value, d int) {
+				if d > 4 || seenV[v] || v.Referrers() == nil {
+					return
+				}
+				seenV[v] = true
+				for _, ref := range *v.Referrers() {
+					switch x := ref.(type) {
+					case ssa.CallInstruction:
+						n := core.CalleeName(x.Common())
+						if sortFuncs[strings.SplitN(n, "[", 2)[0]] || strings.HasPrefix(n, "slices.Sorted") {
+							sorted = true
+						}
+						if strings.HasPrefix(n, "slices.Collect") {
+							if xv, ok := x.(*ssa.Call); ok {
+								visit(xv, d+1)
+							}
+						}
+					case *ssa.Store:
+						// through a local variable
+						if al, ok := x.Addr.(*ssa.Alloc); ok {
+							for _, r2 := range *al.Referrers() {
+								if ld, ok := r2.(*ssa.UnOp); ok && ld.Op == token.MUL {
+									visit(ld, d+1)
+								}
+							}
+						}
+					case *ssa.ChangeType:
+						visit(x, d+1)
+					case *ssa.Slice:
+						visit(x, d+1)
+					case *ssa.MakeInterface:
+						visit(x, d+1)
+					}
+				}
+			}
+			visit(cv, 0)
+			if sorted {
+				r1.Pass(fmt.Sprintf("%s at %s: the keys / values slice is sorted in the same function", key, c.Pos(call.Pos())))
+			} else {
+				r1.Fail(key, c.Pos(call.Pos()), fmt.Sprintf("%s returns the map's elements in iteration order and the result is not sorted in %s: whatever is derived from its order (indexes assigned by first appearance, emitted lists) differs between runs", name, fn.Name()))
+			}
+		}
+	}
 	for k := range exc {
 		if !used[k] && !strings.HasPrefix(k, "sort:") && !strings.HasPrefix(k, "template-write:") {
 			r1.Note("unused exception entry: %s", k)
